@@ -109,6 +109,19 @@ def run(rep, tier, seed, replay=None):
     except RuntimeError as ex:
         rep.add_broken('correspondence', 'model evaluation', str(ex)[-1500:])
 
+    # ---- the recorded finding about keys that do not match themselves (NaN known dimension, infinite definite available space)
+    if not replay:
+        rcw, outw = vh(binp, ['c02', 'nanwitness'], timeout=60)
+        kf = [k for k in known_findings('C02') if k.get('id') == 'nan-or-infinite-key-never-hits' and k.get('status') == 'known']
+        nan_miss = 'NANKEY hit=false' in outw and 'INFKEY hit=false' in outw
+        rep.cov['nan_key_witness'] = outw.strip().split('\n')[-3:]
+        if 'FINITEKEY hit=true' not in outw:
+            rep.add_violation('a lookup under the key of a stored result misses for an ordinary finite key: %s' % outw.strip()[-200:], {'cmd': 'vh c02 nanwitness'})
+        elif nan_miss and kf:
+            rep.known.append(kf[0]['line'].replace('known: property=C02 ', '') + '  [witness replayed: NaN key and infinite key miss, finite key hits]')
+        elif nan_miss:
+            rep.add_violation('a lookup under the key of a stored result misses (NaN known dimension / infinite available space)', {'cmd': 'vh c02 nanwitness'})
+
     # ---- coverage, measured on the implementation's results
     st = {'sequences': len(cases), 'exhaustive_len_le_2': nexh, 'ops': 0, 'get': 0, 'store': 0, 'clear': 0, 'hit_PerformLayout': 0,
           'hit_ComputeSize': 0, 'miss': 0, 'get_Hidden': 0, 'store_Hidden': 0, 'clear_Cleared': 0, 'clear_AlreadyEmpty': 0,
